@@ -34,9 +34,26 @@ func VerifForest(content []byte) (docs []VerifDoc, lines []string, yerr *ParseEr
 			break
 		}
 		// Parse moves nodes yaml placed after the end of the input back onto the last line (fix 5430596) before any
-		// parse function sees them: the forest handed to the model is the clamped one.
-		clampLines(&doc, cr, map[*yaml.Node]bool{})
+		// parse function sees them: the forest handed to the model is the clamped one.  Own copy of that step (not a
+		// call of the unexported helper): if pint stops clamping, the real File and the model disagree and the
+		// "outside the file" oracle has a concrete input.
+		verifClampLines(&doc, cr.lineno, map[*yaml.Node]bool{})
 		docs = append(docs, VerifDoc{Node: &doc, NLines: len(cr.lines)})
 	}
 	return docs, cr.lines, yerr, cr.lineno
+}
+
+func verifClampLines(n *yaml.Node, last int, seen map[*yaml.Node]bool) {
+	if n == nil || seen[n] {
+		return
+	}
+	seen[n] = true
+	if last > 0 && n.Line > last {
+		n.Line = last
+		n.Column = 1
+	}
+	for _, c := range n.Content {
+		verifClampLines(c, last, seen)
+	}
+	verifClampLines(n.Alias, last, seen)
 }
